@@ -115,9 +115,18 @@ def replay_encode(n, model):
     if again is got or [bytes(g) for g in got] != first:
         return {'confirmed': True, 'inputs': {'n': n, 'seq': s, 'payload': P.hex()}, 'observed': {'first result before the second call': [f.hex() for f in first], 'after': [bytes(g).hex() for g in got]},
                 'expected': 'the list returned by the first call is unchanged by the second call', 'how': 'two consecutive calls of NMEA2000Encoder._encode_fast_message on one encoder (working tree)'}
-    bad = first != want or enc.sequence_counter != (s + 2) % 8
-    return {'confirmed': bad, 'inputs': {'n': n, 'seq': s, 'payload': P.hex()}, 'observed': {'frames': [f.hex() for f in first], 'counter_after_two_calls': enc.sequence_counter},
-            'expected': {'frames': [w.hex() for w in want], 'counter_after_two_calls': (s + 2) % 8}, 'how': 'NMEA2000Encoder._encode_fast_message on the working tree'}
+    # the same payload once more: a new message with the next counter (nothing is remembered from the first transmission)
+    try:
+        third = [bytes(g) for g in enc._encode_fast_message(126720, 3, 1, 255, P)]
+    except Exception as e:  # noqa
+        third = ['raise ' + type(e).__name__]
+    want3 = [bytes(f) for f in S.frames(list(P), (s + 2) % 8)]
+    if first == want and third != want3:
+        return {'confirmed': True, 'inputs': {'n': n, 'seq': s, 'payload': P.hex()}, 'observed': {'third call (same payload as the first)': [f.hex() if isinstance(f, bytes) else f for f in third], 'counter': enc.sequence_counter},
+                'expected': {'frames': [w.hex() for w in want3], 'counter': (s + 3) % 8}, 'how': 'three consecutive calls of NMEA2000Encoder._encode_fast_message on one encoder, the third with the payload of the first (working tree)'}
+    bad = first != want or enc.sequence_counter != (s + 3) % 8
+    return {'confirmed': bad, 'inputs': {'n': n, 'seq': s, 'payload': P.hex()}, 'observed': {'frames': [f.hex() for f in first], 'counter_after_three_calls': enc.sequence_counter},
+            'expected': {'frames': [w.hex() for w in want], 'counter_after_three_calls': (s + 3) % 8}, 'how': 'NMEA2000Encoder._encode_fast_message on the working tree'}
 
 
 def main(tier):
